@@ -227,6 +227,20 @@ theorem bip32_child_index_ranges (M : Nat → Point → Point) (par : Bip32.XPrv
    fun _ h => Bip32.ckdData_hardened M par h, fun _ h => Bip32.ckdData_normal M par h,
    fun i _ h => Bip32.ckdData_length M par i h, fun i _ h => Bip32.ckdPriv_valid M par i h⟩
 
+/-- BIP32 says of an invalid child (`parse256(I_L) ≥ n` or `k_i = 0`) "proceed with the next value for i".
+`ckdPrivNext` is that rule; `ckdPriv` is the primitive, which btcutil/hdkeychain (and so gonuts) uses WITHOUT retry,
+returning an error instead.  The two agree whenever the child is valid — they differ only on inputs of probability
+below `2^-127` — and on an invalid child the rule continues with `i + 1`. -/
+theorem bip32_skip_rule (M : Nat → Point → Point) (par : Bip32.XPrv) (t i : Nat) :
+    (∀ c, Bip32.ckdPriv M par i = some c → Bip32.ckdPrivNext M par (t + 1) i = some (i, c)) ∧
+    (Bip32.ckdPriv M par i = none → Bip32.ckdPrivNext M par (t + 1) i = Bip32.ckdPrivNext M par t (i + 1)) :=
+  ⟨fun _ h => Bip32.ckdPrivNext_of_some M par t i h, fun h => Bip32.ckdPrivNext_of_none M par t i h⟩
+
+-- evaluated: for the BIP32 test-vector-1 master key the rule returns child 0' itself (the valid case; the invalid
+-- case cannot be exhibited)
+#guard ((Bip32.master SelfTest.bip32Seed).bind (fun m => Bip32.ckdPrivNext mulFast m 3 (Bip32.hardened 0))).map (·.1) ==
+  some (Bip32.hardened 0)
+
 /-- `ser256`/`parse256` round trip on 256-bit values, and `ser256` is 32 bytes (no leading zero is ever dropped). -/
 theorem bip32_ser256 :
     (∀ k, (Bip32.ser256 k).length = 32) ∧ (∀ k, k < 2 ^ 256 → Bip32.parse256 (Bip32.ser256 k) = k) ∧
